@@ -205,8 +205,8 @@ MALFORMED = ["", "m", "m/", "m//1", "m/1/", "m/1//2", "/1", "1/2", "M/1", "n/1",
 
 def shards(tier, seed):
     T = tier == "thorough"
-    return ([{"name": "parse-%d" % i, "count": 20000 if T else 2000, "first": i == 0} for i in range(8)]
-            + [{"name": "for-index", "count": 10000 if T else 1000}, {"name": "derive", "count": 6000 if T else 500}]
+    return ([{"name": "parse-%d" % i, "count": 100000 if T else 2000, "first": i == 0} for i in range(8)]
+            + [{"name": "for-index", "count": 50000 if T else 1000}, {"name": "derive", "count": 6000 if T else 500}]
             + [{"name": "cli-%d" % i, "count": 500 if T else 40, "first": i == 0} for i in range(8)])
 
 
